@@ -24,6 +24,7 @@ PASS_THROUGH = {
     "core::str::<impl str>::to_string", "core::str::<impl str>::to_owned",
     "std::iter::Iterator::by_ref", "std::hint::must_use",
     "std::result::Result::<T, E>::map_err",      # keeps the variant and the Ok payload
+    "std::mem::take", "std::mem::replace",        # the value that was in the place
     "std::option::Option::<T>::as_ref", "std::option::Option::<T>::as_mut",
     "std::result::Result::<T, E>::as_ref",
     "std::option::Option::<&T>::cloned", "std::option::Option::<&T>::copied",
@@ -193,6 +194,7 @@ class Fn:
             if t["k"] == "call":
                 self.defs[t["dest"]["local"]].append(("call", b["i"], None, t["dest"], self.call_at[b["i"]]))
         self._label_cache = {}
+        self._drop_flags = None
         self._origin_cache = {}
         self._var_cache = {}
         self.return_blocks = [b["i"] for b in self.blocks if not b["cleanup"] and b["term"]["k"] == "return"]
@@ -257,10 +259,65 @@ class Fn:
         return self.reach([d for d in self.succ[bb] if (bb, d) not in set(avoid_edges)], avoid_blocks, avoid_edges)
 
     def dominated_by_edges(self, bb, edges):
-        """True iff every path entry -> bb takes one of `edges`."""
+        """True iff every path entry -> bb takes one of `edges`, or takes an edge that tests a
+        bool flag whose value can only have been set after one of `edges` was taken
+        (`let mut found = false; .. if c { found = true } .. if found { bb }`)."""
         if not edges:
             return False
-        return bb not in self.reach([0], avoid_edges=edges)
+        edges = set(edges)
+        if bb not in self.reach([0], avoid_edges=edges):
+            return True
+        flags = self._flag_switches()
+        if not flags:
+            return False
+        for _ in range(4):
+            grew = False
+            for l, (sets, switches) in flags.items():
+                for val in (True, False):
+                    blocks = sets[val]
+                    add = set()
+                    for info in switches:
+                        add |= self._bool_edges(info, val)
+                    if not blocks or add <= edges:
+                        continue
+                    if all(b not in self.reach([0], avoid_edges=edges) for b in blocks):
+                        edges |= add
+                        grew = True
+            if not grew:
+                break
+            if bb not in self.reach([0], avoid_edges=edges):
+                return True
+        return False
+
+    def _flag_switches(self):
+        """bool locals that are only ever assigned constants (not drop flags, not parameters),
+        with the blocks assigning true / false and the switches testing them."""
+        if getattr(self, "_flags", None) is not None:
+            return self._flags
+        out = {}
+        df = self.drop_flags()
+        for l, defs in self.defs.items():
+            if l == 0 or l in df or l <= self.body.get("arg_count", 0) or self.local_ty(l)["s"] != "bool":
+                continue
+            if not defs or not all(kind == "assign" and rv["k"] == "use" and rv["op"]["k"] == "const" and not place["proj"] and rv["op"].get("bits") in ("0", "1")
+                                   for (kind, bb, idx, place, rv) in defs):
+                continue
+            sets = {True: set(), False: set()}
+            for (kind, bb, idx, place, rv) in defs:
+                # `x = false; x = true` in one block: the last one counts
+                later = [d for d in defs if d[1] == bb and d[2] > idx]
+                if not later:
+                    sets[rv["op"]["bits"] == "1"].add(bb)
+            sw = []
+            for b2 in self.live:
+                info = self.switch_info(b2)
+                if info and info["kind"] in ("value", "local") and info.get("place", {}).get("local", info.get("local")) == l \
+                        and not info.get("place", {}).get("proj"):
+                    sw.append(info)
+            if sw and (sets[True] or sets[False]):
+                out[l] = (sets, sw)
+        self._flags = out
+        return out
 
     def dominated_by_blocks(self, bb, blocks):
         """True iff every path entry -> bb passes through one of `blocks` (bb itself counts)."""
@@ -450,10 +507,9 @@ class Fn:
                 if st and st[0][0] == "field" and kk["k"] in ("closure", "coroutine"):
                     # captured variable addressed by name
                     cb = self.prog.fns.get(kk["body"])
-                    if cb is not None:
-                        caps = cb.body.get("captures", [])
-                        if st[0][1] in caps:
-                            return self._op_origins(rv["ops"][caps.index(st[0][1])], st[1:], visiting)
+                    caps = cb.body.get("captures", []) if cb is not None else self.prog.facts.raw.get("closure_captures", {}).get(kk["body"], [])
+                    if st[0][1] in caps:
+                        return self._op_origins(rv["ops"][caps.index(st[0][1])], st[1:], visiting)
                 return {(("agg", self.id, bb, idx, kk["k"]),) + st}
             return {(("agg", self.id, bb, idx, kk["k"]),) + steps}
         if k == "discriminant":
@@ -594,6 +650,59 @@ class Fn:
         self._label_cache[bb] = info
         return info
 
+    def drop_flags(self):
+        """Locals that drop elaboration introduced: unnamed bools that are only ever assigned
+        constants and only ever read by `switchInt(copy _f)` (a value of the program is moved
+        into its switch, stored, passed or returned)."""
+        if self._drop_flags is not None:
+            return self._drop_flags
+        cand = set()
+        for l, defs in self.defs.items():
+            if l == 0 or l in self.names or l <= self.body.get("arg_count", 0):
+                continue
+            if self.local_ty(l)["s"] != "bool":
+                continue
+            if all(kind == "assign" and rv["k"] == "use" and rv["op"]["k"] == "const" and not place["proj"] for (kind, bb, idx, place, rv) in defs):
+                cand.add(l)
+
+        def walk(x, skip_place):
+            if isinstance(x, dict):
+                if x.get("k") in ("copy", "move") and isinstance(x.get("place"), dict):
+                    cand.discard(x["place"]["local"])
+                    for pr in x["place"].get("proj", []):
+                        walk(pr, False)
+                    return
+                for k, v in x.items():
+                    if k == "place" and skip_place:
+                        # a place written to: index projections are reads
+                        for pr in v.get("proj", []) if isinstance(v, dict) else []:
+                            walk(pr, False)
+                        continue
+                    walk(v, False)
+            elif isinstance(x, list):
+                for v in x:
+                    walk(v, False)
+        for b in self.blocks:
+            for st in b["stmts"]:
+                if st["k"] == "assign":
+                    walk(st["rv"], False)
+                    # `_x = &_f` / uses inside rvalues that name a place directly
+                    rv = st["rv"]
+                    for key in ("place",):
+                        if isinstance(rv.get(key), dict):
+                            cand.discard(rv[key]["local"])
+            t = b["term"]
+            if t["k"] == "switch":
+                d = t["discr"]
+                if d["k"] == "move" and not d["place"]["proj"]:
+                    cand.discard(d["place"]["local"])
+                elif d["k"] != "copy":
+                    walk(d, False)
+            else:
+                walk({k: v for k, v in t.items() if k not in ("span",)}, False)
+        self._drop_flags = cand
+        return cand
+
     def _drop_only_block(self, i):
         b = self.blocks[i]
         for st in b["stmts"]:
@@ -603,7 +712,7 @@ class Fn:
             if rv["k"] == "discriminant":
                 continue
             if rv["k"] == "use" and rv["op"]["k"] == "const" and rv["op"]["ty"]["s"] == "bool" \
-                    and not st["place"]["proj"] and st["place"]["local"] not in self.names and st["place"]["local"] != 0:
+                    and not st["place"]["proj"] and st["place"]["local"] in self.drop_flags():
                 continue
             return False
         return b["term"]["k"] in ("drop", "goto", "switch", "return")
@@ -653,10 +762,24 @@ class Fn:
         want = self._call_origins(cs, tuple(path), frozenset())
         return self.edges_of_value_variant(want, variant)
 
+    _IS_VARIANT = {"is_ok": ("std::result::Result", "Ok", "Err"), "is_err": ("std::result::Result", "Err", "Ok"),
+                   "is_some": ("std::option::Option", "Some", "None"), "is_none": ("std::option::Option", "None", "Some")}
+
     def edges_of_value_variant(self, want_origins, variant):
         out = set()
         for bb in self.live:
             info = self.switch_info(bb)
+            if info and info["kind"] == "call":
+                # `if x.is_ok()` / `if x.is_err()` ...
+                cs = info["call"]
+                iv = self._IS_VARIANT.get(cs.name)
+                if iv and cs.args and cs.path.startswith(("std::result::Result::", "std::option::Option::")) \
+                        and self._op_origins(cs.args[0], (), frozenset()) == want_origins:
+                    if variant == iv[1]:
+                        out |= self._bool_edges(info, True)
+                    elif variant == iv[2]:
+                        out |= self._bool_edges(info, False)
+                continue
             if not info or info["kind"] != "variant" or self.is_drop_switch(bb):
                 continue
             org = info["origins"]
